@@ -894,6 +894,36 @@ theorem Inv.drop {e : Ent A} {L : Log A} (h : Inv e L) (i : Nat) (hs : othersFor
     · subst hji; simp [alookup_aerase_same] at hj
     · rw [alookup_aerase_ne _ hji, (hs j hji).2] at hj; cases hj
 
+theorem alookup_none_of_keys {β : Type} {l : List (Nat × β)} {i j : Nat}
+    (h : l.all (fun p => p.1 == i) = true) (hj : j ≠ i) : alookup l j = none := by
+  induction l with
+  | nil => rfl
+  | cons p t ih =>
+    obtain ⟨k, v⟩ := p
+    simp only [List.all_cons, Bool.and_eq_true, beq_iff_eq] at h
+    rw [alookup_cons]
+    have : ¬ (k = j) := by intro hk; exact hj (hk ▸ h.1)
+    simp only [this, if_false]
+    exact ih h.2
+
+theorem othersForgot_of_B {e : Ent A} {i : Nat} (h : othersForgotB e i = true) :
+    othersForgot e i := by
+  unfold othersForgotB at h
+  rw [Bool.and_eq_true] at h
+  intro j hj
+  exact ⟨alookup_none_of_keys h.1 hj, alookup_none_of_keys h.2 hj⟩
+
+theorem dropSafe_of_B {e : Ent A} {ops : List (HOp A)} (h : dropSafeB e ops = true) :
+    DropSafe e ops := by
+  induction ops generalizing e with
+  | nil => trivial
+  | cons o rest ih =>
+    simp only [dropSafeB, Bool.and_eq_true] at h
+    refine ⟨?_, ih h.2⟩
+    cases o with
+    | op o' => trivial
+    | drop i => exact othersForgot_of_B h.1
+
 theorem runH_refines {e : Ent A} {L : Log A} (hiv : A.initVersion ≤ 1) (h : Inv e L)
     (ops : List (HOp A)) (hs : DropSafe e ops) : Inv (runH e ops) (specRunH L ops) := by
   induction ops generalizing e L with
